@@ -112,9 +112,42 @@ def pattern_oracle(ctx, rng, n):
             ctx.count('pattern_ok')
 
 
+def tt_gate_oracle(ctx):
+    """gates created from a truth-table code (`add_gate_from_tt`, the constructor every arithmetic
+    generator uses): all 16 codes x all operand values, evaluated by every entry point, against the code itself"""
+    try:
+        from cirbo.core.circuit import Circuit
+        from cirbo.synthesis.generation.arithmetics._utils import add_gate_from_tt
+    except Exception:  # noqa: BLE001  (import problems are reported by C07's correspondence)
+        return
+    for code in [''.join(b) for b in itertools.product('01', repeat=4)]:
+        ctx.case(json.dumps(['tt_gate', code]))
+        try:
+            c = Circuit.bare_circuit(2)
+            x, y = c.inputs
+            g = add_gate_from_tt(c, x, y, code)
+            c.set_outputs([g])
+            got = ''
+            for a in (False, True):
+                for b in (False, True):
+                    v1 = c.evaluate([a, b])[0]
+                    v2 = c.evaluate_full_circuit({x: a, y: b})[g]
+                    v3 = c.evaluate_circuit({x: a, y: b})[g]
+                    if not (v1 == v2 == v3):
+                        got += '?'
+                    else:
+                        got += '1' if v1 is True else ('0' if v1 is False else '*')
+        except Exception as e:  # noqa: BLE001
+            ctx.violation('tt_gate.raises', f'add_gate_from_tt({code}) / its evaluation raised {err_name(e)}', input={'code': code})
+            continue
+        if got != code:
+            ctx.violation('tt_gate.wrong', f'the gate created for truth table {code} evaluates to {got}', input={'code': code})
+
+
 def search(ctx):
     """implementation only: every entry point's values vs the certified denotation"""
     rng = ctx.rng('search')
+    tt_gate_oracle(ctx)
     pattern_oracle(ctx, ctx.rng('search-pattern'), ctx.scale(300, 4000))
     for k in range(ctx.scale(120, 3000)):
         j, info = gen.gen_circuit(rng, max_inputs=ctx.scale(4, 6), max_gates=ctx.scale(14, 30), max_arity=6)
